@@ -365,6 +365,11 @@ DiskdFile::closeDone(diomsg * M)
 
     ioCompleted();
 
+    // Our requestor usually holds the last reference to us and drops it from
+    // within closeCompleted(). Stay alive (and keep the requestor alive) until
+    // both of us are done with this call.
+    const RefCount<DiskdFile> self(this);
+
     if (canNotifyClient())
         ioRequestor->closeCompleted();
 
